@@ -21,7 +21,7 @@ RULE = ("direction A: joserfc encrypts a generated plan (21 algs x 8 encs x zip 
         "DEFLATE stream, epk with exactly the public members, p2s >= 8 octets, p2c >= 1000 by default). direction B: the reference "
         "encrypts with generated CEK/IV/epk/salt and a generated spelling of the protected header (whitespace, member order, escapes), "
         "algorithm-specific members in the protected or per-recipient header, DEFLATE levels 0-9; joserfc must decrypt to the same "
-        "plaintext. Published RFC 7520 / ECDH-1PU example tokens are explicit cases. non-trivial: every case; distinct = (direction, "
+        "plaintext, and the object it returned, amended in its protected header and encrypted again, must be opened by the reference. Published RFC 7520 / ECDH-1PU example tokens are explicit cases. non-trivial: every case; distinct = (direction, "
         "plan label, spelling style).")
 ASSUMPTIONS = ["the reference (/verif/ref/jwe.py) is correct: self-tested on RFC 3394, RFC 7518 app. C, RFC 7520 section 5 and ECDH-1PU draft vectors at start-up",
                "pycryptodome AES/RSA primitives, hashlib PBKDF2/SHA-2 and `cryptography` ChaCha20-Poly1305 are correct"]
